@@ -1,0 +1,40 @@
+//! Verification hooks, compiled only with `--cfg metrics_verif`.
+//!
+//! A harness that owns the thread schedule installs a per-thread hook; library code marks the gaps
+//! between its atomic steps with [`point`] and the iterations of its wait loops with [`spin`].
+//! Without an installed hook both are no-ops.
+use std::{cell::RefCell, rc::Rc};
+
+/// Per-thread hook: `(site, is_spin)`.
+pub type Hook = Rc<dyn Fn(&'static str, bool)>;
+
+thread_local! {
+    static HOOK: RefCell<Option<Hook>> = RefCell::new(None);
+}
+
+/// Installs (or clears) the hook of the calling thread.
+pub fn set_thread_hook(hook: Option<Hook>) {
+    let _ = HOOK.try_with(|h| *h.borrow_mut() = hook);
+}
+
+fn call(site: &'static str, spin: bool) {
+    let hook = HOOK.try_with(|h| h.borrow().clone()).ok().flatten();
+    if let Some(hook) = hook {
+        hook(site, spin)
+    }
+}
+
+/// Marks a gap between two atomic steps.
+#[inline]
+pub fn point(site: &'static str) {
+    call(site, false)
+}
+
+/// Marks one iteration of a loop that cannot progress until another thread runs.
+#[inline]
+pub fn spin(site: &'static str) {
+    call(site, true)
+}
+
+pub use crate::cow::{Cow, Cowable};
+pub use crate::recorder::VerifRecorderOnceCell as RecorderOnceCell;
